@@ -3,6 +3,7 @@ import collections, json, os, random, re, time
 from vlib import *  # noqa
 from fam_funcs import run_funcs  # noqa
 from fam_client import run_client  # noqa
+from fam_wire import run_wire  # noqa
 
 BAG = {
     "pubsub": '<<"join","sub","sub","unsub","pub","pub","pub","leave">>',
@@ -129,6 +130,7 @@ PROPS = {
                 classes=["sess", "pubsub", "details", "meta", "metaapi", "rpcroute", "rpcreply"], poison=True),
     "C04": dict(family="hostile", classes=["sess", "pubsub", "rpcreply", "rpcroute", "rpcintr", "metaapi", "meta"]),
     "C19": dict(family="funcs"),
+    "C15": dict(family="wire"),
     "C16": dict(family="client",
                 conc=dict(inv=["OwnReply", "AtMostOnce", "NoLeftover"], props=["CloseReturns", "ApisReturn", "RunMovesOn"],
                           quick=dict(napi=2, nreplies=2), thorough=dict(napi=3, nreplies=2),
@@ -639,6 +641,21 @@ def run_hostile(prop, spec, tier, seed, work, replay):
         bare = [m for m in muts if m["phase"] == "joined" and (m["pos"].startswith("ppt_") or m["pos"] in ("progress", "receive_progress", "timeout", "disclose_me", "exclude_me"))
                 and (tier == "thorough" or m["kind"] in ("true", "str"))]
         scns += [hostile_scenario(len(scns) + i + 1, m, prop, i, False, True) for i, m in enumerate(bare)]
+    # byte level hostility (frames of every type and size, truncated frames, lists that only
+    # resemble messages) against the rawsocket peer: Wire.tla
+    wire_viol, wire_cov = [], (0, 0, [])
+    if not replay:
+        import fam_wire
+        wscn = gen_scenarios(work, "GenWire", {"Depth": 9, "Big": "FALSE"}, 150 if tier == "quick" else 3000, 9, seed * 7919 + 77,
+                             "genwire", "%s.wire%d." % (prop, seed))
+        wire_viol, wire_cov = fam_wire.exec_wire(work, binary, wscn)
+        violations += wire_viol
+        # ... and the request/reply loops against dealer and meta API of the concurrency family: timing must not wedge the router
+        bs = gen_scenarios(work, "Gen", {"Deviations": tla_set([]), "Depth": 10, "Mode": '""', "Scripted": "FALSE"}, 60 if tier == "quick" else 1500, 10,
+                           seed * 7919 + 78, "genburst", "%s.burst%d." % (prop, seed), defs={"KindBag": BAG["burstrpc"]})
+        for s in bs:
+            s["epilogue"] = True
+        scns += bs
     byid = {s["id"]: s for s in scns}
     tf, crashes = run_exec(work, binary, scns, "ex", timeout=1800)
     for c in crashes:
@@ -660,7 +677,8 @@ def run_hostile(prop, spec, tier, seed, work, replay):
     groups, order = split_by_scn(evs)
     bad = {v["scn"] for v in violations}
     good = [s for s in order if s not in bad][:2]
-    cov = {"states": st["distinct"], "transitions": st["generated"], "traces_validated_against_impl": ok,
+    cov = {"states": st["distinct"], "transitions": st["generated"], "traces_validated_against_impl": ok + wire_cov[0],
+           "wire_scenarios": wire_cov[0], "wire_steps": wire_cov[1],
            "samples": [{"scenario": s, "mutant": next((x for x in byid[s]["steps"] if x["op"] == "hostile"), {}).get("hm"),
                         "story": scenario_story(groups[s]).split("\n")[-14:]} for s in good],
            "evaluations": len(scns), "distinct_nontrivial": len({json.dumps(next((x for x in s["steps"] if x["op"] == "hostile"), {}).get("hm"), sort_keys=True) for s in scns}),
